@@ -496,6 +496,18 @@ class PyHarness(object):
         noparse = bool(sel) and w.total == 0 and not w.parses and all(not in_params(s) for s in sel)
         if noparse:
             parsed_ok = [{"stored": {}, "ok": True}]
+        if not fail and sel and not parsed_ok and not noparse:
+            # a call whose argument count matches a signature must at least be offered to that signature's parser
+            tried = set()
+            for p_ in w.parses:
+                units, nreq = parse_format(p_["format"])
+                tried.add((nreq, len(units)))
+            for s_ in sel:
+                ins_ = in_params(s_)
+                shape = (len(ins_) - sum(1 for q in ins_ if q.init is not None), len(ins_))
+                if shape not in tried and len(sel) == 1:
+                    fail = "a call with %d arguments matches %s(%s) but is rejected without that signature's parser being tried" % (
+                        w.total, s_.name, ", ".join(q.tname for q in ins_))
         if not fail:
             if not sel or not parsed_ok:
                 # no overload matches / conversion failed: NULL with TypeError or ValueError, library untouched
@@ -738,6 +750,8 @@ def native_call(w):
                'void divmod(int a, int b, int *q, int *r) { printf("LIB %d %d\\n", a, b); *q = 11; *r = 13; }',
                'int pick(int a, int b, int c) { printf("LIB %d %d %d\\n", a, b, c); return 3; }',
                'int pick(double x) { printf("LIB %g\\n", x); return 1; }',
+               'int combo(int a, int b, int c, int d) { printf("LIB %d %d %d %d\\n", a, b, c, d); return 4; }',
+               'int combo(double v, int k, int off) { printf("LIB %g %d %d\\n", v, k, off); return 8; }',
                'int stride(int num, int offset, int step) { printf("LIB %d %d %d\\n", num, offset, step); return 9; }',
                'int toggle(bool flag, int n, int m) { printf("LIB %d %d %d\\n", (int) flag, n, m); return 4; }',
                'int divide(int num, int *rem, int den, bool neg) { printf("LIB %d %d %d\\n", num, den, (int) neg); *rem = 13; return 6; }',
@@ -754,6 +768,12 @@ def native_call(w):
         sig = entry["sigs"][0]
         for s in entry["sigs"]:
             if len(in_params(s)) >= w["supplied"]:
+                sig = s
+                break
+        for s in entry["sigs"]:
+            # prefer the signature the argument count selects (required <= supplied <= all)
+            ins_ = in_params(s)
+            if len(ins_) - sum(1 for q in ins_ if q.init is not None) <= w["supplied"] <= len(ins_):
                 sig = s
                 break
         sample = {"int": "5", "long": "5", "double": "1.5", "bool": "True", "std::string": "'ab'", "char": "'ab'"}
